@@ -64,6 +64,20 @@ class ThreadExec(ModeExec):
         self.K, self.msg_order = K, msg_order
         self.cut = []
 
+    def rvalue(self, rv, frame, mem):
+        rv = rv.strip()
+        m = re.fullmatch(r"Option::<[^()]*>::Some\((.*)\)", rv)
+        if m:
+            return Struct({0: self.operand(m.group(1), frame, mem)}, tag="Some")
+        if re.fullmatch(r"Option::<[^()]*>::None", rv):
+            return Struct({}, tag="None")
+        return super().rvalue(rv, frame, mem)
+
+    def operand(self, s, frame, mem):
+        if re.fullmatch(r"const Option::<[^()]*>::None", re.sub(r"^no_retag ", "", s.strip())):
+            return Struct({}, tag="None")
+        return super().operand(s, frame, mem)
+
     def resolve(self, callee):
         # a method of HotReloadingData the kernel does not know as an action (e.g. a new predicate on the mode) is executed
         m = re.fullmatch(r"HotReloadingData::(\w+)", callee.strip())
